@@ -28,6 +28,7 @@ func runC05(c *Ctx) {
 	r.Rule("R4-verifier-shape", "verifier length constant in RFC 7636 range, unpadded URL-safe base64 of crypto/rand bytes", 4)
 	r.Rule("R5-redemption", "redeemed verifier is GetCodeVerifier() of the loaded CSRF cookie and reaches the token request as code_verifier in every Redeem implementation", 8)
 	r.Rule("R7-method-from-config", "ProviderData.CodeChallengeMethod is written only from the operator's option", 2)
+	r.Rule("R10-alpha-providers-verbatim", "the structured configuration's providers reach Options.Providers as written; the legacy skip-nonce flag maps to the skip-nonce option", 2)
 	r.Rule("R8-legacy-force-method", "the legacy conversion lets force-code-challenge-method alone select the PKCE method", 2)
 	r.Rule("R9-verifier-only-to-token-request", "every Redeem implementation sends its verifier only as code_verifier of the token request; the parameter set carrying it is used only through url.Values methods", 4)
 	r.Rule("R6-hashed-on-wire", "login URL gets only hashed state/nonce; raw csrf fields have a closed reader set", 10)
@@ -45,6 +46,8 @@ func runC05(c *Ctx) {
 	runC05R7(c)
 	runC05R8(c, "R8-legacy-force-method")
 	runC05R9(c, "R9-verifier-only-to-token-request")
+	runC05R10(c, "R10-alpha-providers-verbatim")
+	runLegacyToggleTable(c, "R10-alpha-providers-verbatim", "InsecureSkipNonce")
 }
 
 func runC05R2(c *Ctx, a *cbAnchors) {
@@ -830,5 +833,34 @@ func runC05R9(c *Ctx, rule string) {
 	}
 	if n == 0 {
 		c.R.Unknown(rule, "verifier-use|none", "-", "no Redeem implementation uses its verifier")
+	}
+}
+
+// runC05R10: what the operator wrote in the structured (alpha) configuration reaches the proxy untouched:
+// AlphaOptions.MergeInto stores its Providers into Options.Providers as they are. Any re-encoding or
+// defaulting pass in between can lose an explicit false — the zero value — such as insecureSkipNonce: false,
+// which is how nonce checking gets switched off without the operator asking for it.
+func runC05R10(c *Ctx, rule string) {
+	merge := c.Fn(rule, "(*pkg/apis/options.AlphaOptions).MergeInto")
+	toF := c.Field(rule, "pkg/apis/options.Options.Providers")
+	fromF := c.Field(rule, "pkg/apis/options.AlphaOptions.Providers")
+	if merge == nil || toF == nil || fromF == nil {
+		return
+	}
+	n := 0
+	for _, ref := range c.fieldRefs(toF) {
+		if ref.Store == nil || ref.Fn != merge {
+			continue
+		}
+		n++
+		key := "providers-verbatim|" + fnKey(merge)
+		if base, ok := walk.FieldLoadBase(unwrap0(ref.Store.Val), fromF); ok && base == ssa.Value(merge.Params[0]) {
+			c.ok(rule, key, ref.In, "opts.Providers = a.Providers")
+		} else {
+			c.R.Bad(rule, key, c.pos(ref.In), "the providers of the structured configuration are rebuilt on their way into the options instead of being taken as written: a pass that re-encodes or defaults them can drop explicit zero values (insecureSkipNonce: false, a disabled code-challenge method)", nil, nil)
+		}
+	}
+	if n == 0 {
+		c.R.Unknown(rule, "providers-verbatim|none", c.P.Pos(merge.Pos()), "MergeInto does not set Options.Providers")
 	}
 }
